@@ -55,6 +55,7 @@ class Resolver:
         self.params = set(params)
         self.rd = cfg.reaching()
         self._memo: Dict[Tuple[int, int], ast.AST] = {}
+        self.module_consts: Dict[str, ast.AST] = {}  # module-level NAME = <constant>  (set by the function view)
         self.inliner = None  # optional callback(resolved call, raw call) -> term | None  (set by the function view)
 
     # ------------------------------------------------------------------ public
@@ -161,7 +162,10 @@ class Resolver:
                         bind(el, elem_of(sub), sub)
                     elif parts is not None and parts[0] == "enumerate":
                         if i == 0:
-                            bind(el, sym("idx", loopid, parts[1][0]), None)
+                            counter = sym("idx", loopid, parts[1][0])
+                            if len(parts) > 2 and parts[2] is not None:
+                                counter = ast.BinOp(left=counter, op=ast.Add(), right=parts[2])
+                            bind(el, counter, None)
                         else:
                             bind(el, elem_of(parts[1][0]), parts[1][0])
                     elif parts is not None and parts[0] == "items":
@@ -189,7 +193,8 @@ class Resolver:
             if isinstance(fn, ast.Name) and fn.id == "zip" and not it.keywords:
                 return ("zip", list(it.args))
             if isinstance(fn, ast.Name) and fn.id == "enumerate" and len(it.args) >= 1:
-                return ("enumerate", [it.args[0]])
+                start = it.args[1] if len(it.args) > 1 else next((k.value for k in it.keywords if k.arg == "start"), None)
+                return ("enumerate", [it.args[0]], start)
             if isinstance(fn, ast.Attribute) and fn.attr == "items" and not it.args:
                 return ("items", [fn.value])
             if isinstance(fn, ast.Attribute) and fn.attr == "ndenumerate" and len(it.args) == 1:
@@ -199,6 +204,8 @@ class Resolver:
     def _name(self, name: str, at: int, depth: int, stack: Set, bound) -> ast.AST:
         defs = self.rd[at].get(name)
         if not defs:
+            if name in self.module_consts:
+                return copy.deepcopy(self.module_consts[name])
             return ast.Name(id=name, ctx=ast.Load())  # global / builtin / module alias
         terms = []
         for d in sorted(defs):
